@@ -424,7 +424,7 @@ def extract_const(spec, repo=REPO, plain=False):
                 hits.append(mm)
     if len(hits) != 1:
         raise AnchorLost("const `%s` in %s: %d candidates" % (name, file, len(hits)))
-    ty, init = hits[0].group(1).strip(), hits[0].group(2).strip()
+    ty, init = hits[0].group(1).strip(), re.sub(r"\s+", " ", hits[0].group(2).strip())   # one line: keeps the line map exact
     q = "Self::" if len(parts) > 1 else ""
     if plain:
         text = "    const %s: %s = %s;" % (name, ty, init)
